@@ -329,9 +329,12 @@ class C09Mon(episodes.Monitor):
         if "reward" in pred and not base.arr_eq(ts.reward, np.asarray(pred["reward"], np.asarray(ts.reward).dtype), tol=1e-5):
             rec.fail("transition.reward", "reward differs from the rule model",
                      tag + f"env {base.short(ts.reward)} model {base.short(pred['reward'])}")
-        if "last" in pred and bool(pred["last"]) != (int(ts.step_type) == episodes.LAST):
-            rec.fail("transition.last", "termination flag differs from the rule model",
-                     tag + f"env step_type {int(ts.step_type)} model last={bool(pred['last'])}")
+        if "last" in pred:
+            # 'last' may be a callable of the successor state when termination depends on a stochastic part
+            want_last = bool(pred["last"](s) if callable(pred["last"]) else pred["last"])
+            if want_last != (int(ts.step_type) == episodes.LAST):
+                rec.fail("transition.last", "termination flag differs from the rule model",
+                         tag + f"env step_type {int(ts.step_type)} model last={want_last}")
         if "discount" in pred and not base.arr_eq(ts.discount, np.asarray(pred["discount"], np.asarray(ts.discount).dtype), tol=1e-6):
             rec.fail("transition.discount", "discount differs from the rule model",
                      tag + f"env {base.short(ts.discount)} model {base.short(pred['discount'])}")
